@@ -15,13 +15,42 @@ const int MAXTASK = 8;
 
 tulz::ThreadPool *g_pool;
 
+struct Task;
+int task_id_of(tulz::Runnable *r);
+
 uint64_t pool_state() {
     if (!g_pool) return 0;
     uint64_t h = 3;
     h = vs_mix(h, g_pool->m_queue.size());
+    for (auto r : g_pool->m_queue) h = vs_mix(h, (uint64_t)(task_id_of(r) + 2));      // which tasks are queued, in order
     h = vs_mix(h, g_pool->m_pool.size());
+    // (the workers' finished flags are not read here: stop()/update() leave deleted Thread objects in m_pool until they clear it; a worker's flag is set in the same step in which its thread ends, which the scheduler's own thread table records)
     h = vs_mix(h, g_pool->m_isRunning);
+    h = vs_mix(h, (uint64_t)g_pool->m_maxThreadCount); h = vs_mix(h, (uint64_t)(g_pool->m_expiryTimeout + 7));
     return h;
+}
+
+// ---- stateful pass: the life cycle of every task is kept in scheduler cells (part of the state fingerprint) and judged online
+enum { CELL_STOPS = 13, CELL_LASTRUN = 14, CELL_ONLINE = 15, CELL_TS0 = 16, CELL_SUBGEN0 = 16 + 8, CELL_SINGLE = 33 };
+enum { TS_NONE = 0, TS_QUEUED = 1, TS_RUNNING = 2, TS_RAN = 3, TS_DONE = 4, TS_DROPPED = 5 };
+void online_enter(int id) {
+    if (!vs_cell_get(CELL_ONLINE)) return;
+    long st = vs_cell_get(CELL_TS0 + id);
+    if (st == TS_RUNNING || st == TS_RAN || st == TS_DONE) vs_fail("task %d was executed a second time", id);
+    if (st == TS_DROPPED) vs_fail("task %d started running after it had been destroyed", id);
+    if (st != TS_QUEUED) vs_fail("task %d started running although it was never submitted", id);
+    if (vs_cell_get(CELL_STOPS) > vs_cell_get(CELL_SUBGEN0 + id)) vs_fail("task %d started running after stop() had returned", id);
+    if (vs_cell_get(CELL_SINGLE) && id < vs_cell_get(CELL_LASTRUN)) vs_fail("single worker: task %d ran after task %ld (submission order violated)", id, vs_cell_get(CELL_LASTRUN));
+    vs_cell_set(CELL_LASTRUN, id);
+    vs_cell_set(CELL_TS0 + id, TS_RUNNING);
+}
+void online_exit(int id) { if (vs_cell_get(CELL_ONLINE)) vs_cell_set(CELL_TS0 + id, TS_RAN); }
+void online_destroy(int id) {
+    if (!vs_cell_get(CELL_ONLINE)) return;
+    long st = vs_cell_get(CELL_TS0 + id);
+    if (st == TS_RUNNING) vs_fail("task %d was destroyed while it was running", id);
+    if (st == TS_DONE || st == TS_DROPPED) vs_fail("task %d was destroyed twice", id);
+    vs_cell_set(CELL_TS0 + id, st == TS_RAN ? TS_DONE : TS_DROPPED);
 }
 
 struct Task : tulz::Runnable {
@@ -29,17 +58,21 @@ struct Task : tulz::Runnable {
     explicit Task(int i) : id(i) {}
     void run() override {
         vs_event(EV_RUN_ENTER, id, 0);
+        online_enter(id);
         vs_cell_add(CELL_RUNNING, 1);
         vs_point(3);                       // running a task has duration
         vs_cell_add(CELL_RUNNING, -1);
         vs_cell_add(CELL_RAN, 1);
+        online_exit(id);
         vs_event(EV_RUN_EXIT, id, 0);
     }
     ~Task() override {
         vs_event(EV_DESTROY, id, 0);
+        online_destroy(id);
         vs_cell_add(CELL_DESTROYED, 1);
     }
 };
+int task_id_of(tulz::Runnable *r) { auto t = dynamic_cast<Task *>(r); return t ? t->id : -1; }
 
 // a task given to the template start(): the pool wraps a COPY of the functor in its own Runnable; the task counts as destroyed
 // when the last copy of the functor is gone
@@ -69,10 +102,47 @@ struct Spec {
     int expiry = -1;
     bool check_tasks = false;   // C07 oracle
     bool check_stop = false;    // C08 oracle
+    bool stateful = false;      // all schedules (no preemption bound), cut off at visited states; task life cycles judged online in cells
     int spurious = 0;           // spurious wake-ups of waiting workers the scheduler may generate per execution (each costs 1 from the bound)
 };
 
 struct TaskInfo { int submit = -1, enter = -1, exit = -1, destroy = -1, enters = 0, destroys = 0, run_tid = -1; bool must_run = false; };
+
+void run_stateful(const Spec &s) {
+    auto pool = std::make_unique<tulz::ThreadPool>();
+    g_pool = pool.get();
+    pool->setExpiryTimeout(s.expiry);
+    pool->setMaxThreadCount(s.maxThreads);
+    vs_cell_set(CELL_ONLINE, s.check_tasks ? 1 : 0); vs_cell_set(CELL_SINGLE, s.maxThreads == 1); vs_cell_set(CELL_LASTRUN, -1);
+    int submitted = 0, stops = 0;
+    std::vector<int> pending;       // tasks submitted since the last clear/stop: they must have run when W returns
+    for (char c : s.script) {
+        vs_event(EV_OP, c, 0);
+        switch (c) {
+        case 'S': { int id = submitted++; vs_event(EV_SUBMIT, id, 0); vs_cell_set(CELL_TS0 + id, TS_QUEUED); vs_cell_set(CELL_SUBGEN0 + id, stops); pool->start(new Task(id)); pending.push_back(id); break; }
+        case 'C': pool->clear(); pending.clear(); break;
+        case 'X':
+            pool->stop(); stops++; vs_cell_set(CELL_STOPS, stops); pending.clear();
+            if (s.check_stop) {
+                if (pool->getThreadCount() != 0) vs_fail("after stop(): getThreadCount() == %d, expected 0", pool->getThreadCount());
+                if (vs_cell_get(CELL_RUNNING) != 0) vs_fail("after stop(): %ld task(s) still running", vs_cell_get(CELL_RUNNING));
+                if (vs_cell_get(CELL_DESTROYED) != submitted) vs_fail("after stop(): %d task(s) submitted but %ld destroyed - a queued task survived stop()", submitted, vs_cell_get(CELL_DESTROYED));
+            }
+            break;
+        case 'W':
+            vs_note(stops ? "restarted-after-stop" : "");
+            vs_block_until(pred_destroyed, (void *)(long)submitted);
+            vs_note("");
+            if (s.check_tasks) for (int id : pending) if (vs_cell_get(CELL_TS0 + id) != TS_DONE) vs_fail("task %d was never executed although the pool was neither cleared nor stopped before the owner saw it destroyed", id);
+            pending.clear();
+            break;
+        }
+        vs_event(EV_OP_RET, c, 0);
+        if (s.check_stop && pool->getThreadCount() > s.maxThreads) vs_fail("getThreadCount() == %d exceeds the configured maximum %d", pool->getThreadCount(), s.maxThreads);
+    }
+    if (s.check_tasks) for (int id = 0; id < submitted; id++) { long st = vs_cell_get(CELL_TS0 + id); if (st != TS_DONE && st != TS_DROPPED) vs_fail("task %d was not destroyed although the script ended with stop()", id); }
+    g_pool = nullptr;
+}
 
 void run(const Spec &s) {
     auto pool = std::make_unique<tulz::ThreadPool>();
@@ -187,13 +257,14 @@ std::string ev_name(const vs_ev &e) {
 
 void add(VSuite &suite, Spec s, int bound, const std::string &flavour) {
     VProgram p;
-    p.name = s.script + "-max" + std::to_string(s.maxThreads) + (s.expiry >= 0 ? "-expiry" + std::to_string(s.expiry) : "") + (s.spurious ? "+spurious" : "");
-    p.spurious = s.spurious;
+    p.name = s.script + "-max" + std::to_string(s.maxThreads) + (s.expiry >= 0 ? "-expiry" + std::to_string(s.expiry) : "") + (s.spurious ? "+spurious" : "") + (s.stateful ? "@all" : "");
+    p.spurious = s.spurious; p.stateful = s.stateful;
     p.describe = "owner script " + s.script + " (S start task, F start a functor through the template start(), C clear, X stop, W wait until all submitted tasks are destroyed, U update, A advance the clock past the expiry timeout, G getters), maxThreadCount=" +
                  std::to_string(s.maxThreads) + ", expiryTimeout=" + std::to_string(s.expiry) + "; every task has a scheduling point inside run()" + (s.spurious ? "; one spurious wake-up of a waiting worker may happen anywhere (costs 1 like a preemption)" : "");
     p.bound = bound;
     p.unlock_points = true;         // ThreadPool publishes flags outside its mutexes: make every release a scheduling point
-    p.body = [s] { run(s); };
+    p.body = [s] { if (s.stateful) run_stateful(s); else run(s); };
+    if (s.stateful) p.describe += "; ALL schedules without a preemption bound: the depth-first search is cut off at every state (thread positions, scheduler objects, task life-cycle cells, the pool's queue contents, worker list and flags) that was reached before";
     p.state_cb = flavour == "tsan" ? nullptr : pool_state;
     suite.programs.push_back(std::move(p));
 }
@@ -229,6 +300,12 @@ bool provider(const std::string &prop, const std::string &tier, const std::strin
     { Spec s = base; s.script = "SSCSX"; s.maxThreads = 2; add(suite, s, 2, flavour); }
     { Spec s = base; s.script = "FFWX"; s.maxThreads = 2; add(suite, s, 2, flavour); }          // template start(T, Args&&...)
     { Spec s = base; s.script = "FSCFX"; s.maxThreads = 1; add(suite, s, 3, flavour); }
+    // ---- stateful pass: ALL schedules of these scripts
+    if (flavour == "plain") {
+        for (int mt : {1, 2}) for (const char *sc : {"SWX", "SX", "SSWX", "SSX", "SCSWX", "SXSWX", "SSCX", "SWSWX", "SWXX"}) { Spec s = base; s.script = sc; s.maxThreads = mt; s.stateful = true; add(suite, s, 0, flavour); }
+        for (int mt : {1, 2}) for (const char *sc : {"SWX", "SXSWX"}) { Spec s = base; s.script = sc; s.maxThreads = mt; s.stateful = true; s.spurious = 1; add(suite, s, 0, flavour); }
+        if (thorough) for (const char *sc : {"SSSWX", "SSCSX", "SSXSSWX"}) { Spec s = base; s.script = sc; s.maxThreads = 2; s.stateful = true; add(suite, s, 0, flavour); }
+    }
     // spurious wake-ups of idle workers (POSIX allows them for every condition wait)
     for (int mt : {1, 2}) for (const char *sc : {"SWX", "SWSWX", "SCSWX", "SXSWX"}) { Spec s = base; s.script = sc; s.maxThreads = mt; s.spurious = 1; add(suite, s, thorough ? 3 : 2, flavour); }
     if (thorough) {
